@@ -110,6 +110,30 @@ def gen_scenario(r, mode=None):
             "target": {"kind": okind, "ns": ons, "name": 10, "uid": 100}}
 
 
+def gen_handover(seed, n, salt="seth"):
+    """Active ObjectSets at revision >= 3 with TWO declared previous revisions (in either order), members controlled
+    by either of them at a lower revision: the adoption has to be permitted through every entry of spec.previous."""
+    r = vlib.rng(seed, salt)
+    out = []
+    for _ in range(n):
+        sc = gen_scenario(r, mode="active")
+        t = [s_ for s_ in sc["sets"] if s_["name"] == 10][0]
+        okind, ons = t["kind"], t["ns"]
+        t["revision"] = max(t["revision"], 3)
+        sets = [s_ for s_ in sc["sets"] if s_["name"] not in (8, 9)]
+        sets.append(sl.mk_set(okind, ons, 9, 90, rv=6, revision=2, life=r.choice([0, 1, 2]), remotes=[]))
+        sets.append(sl.mk_set(okind, ons, 8, 80, rv=7, revision=1, life=r.choice([0, 2]), remotes=[]))
+        t["prev"] = r.choice([[8, 9], [9, 8]])
+        for o in sc["store"]:
+            if o["name"] < 40 and r.random() < 0.6:
+                who = r.choice([(9, 90, 2), (8, 80, 1)])
+                o["owners"] = [[okind, who[0], who[1], 1]]
+                o["rev"] = who[2]
+        sc["sets"] = sl.sort_sets(sets)
+        out.append(sc)
+    return out
+
+
 def gen(seed, n, salt="set"):
     r = vlib.rng(seed, salt)
     return [gen_scenario(r) for _ in range(n)]
